@@ -493,6 +493,47 @@ def rule_h(ck, R):
                 bad = 'meta field is %s, not the response code' % fmt(eh[0].args[4])
             bad = bad or emitted_header(eh[0], smc[0])
         ck.verdict(bad is None, 'C08.h', 'send_resp_0', R.where('send_resp_0'), 'no payload, block size 0, code in the meta field, sequence/address echoed' if bad is None else bad)
+    # send_early_response: the request header is parsed from the fallback buffer; a response echoing it may only be
+    # built when that parse succeeded, header faults are answered with the matching META frame
+    engE = R.engine(set())
+    ps = R.paths('send_early_response', 'C08.h', engE)
+    if ps is not None:
+        bad = None
+        kinds = set()
+        for p in ps:
+            ph = p.calls('parse_header')
+            if len(ph) != 1:
+                bad = bad or 'expected one parse_header'
+                continue
+            r = ph[0].result
+            rs = [e for e in p.calls() if e.name in ('send_resp_0', 'send_resp_32')]
+            mt = p.calls('regp_resp_meta')
+            if rs:
+                kinds.add(rs[0].name)
+                if engE.feasible(p.cond_terms() + [('cmp', '<', r, C(0))]):
+                    bad = bad or ('%s echoes the frame on a path where parse_header may have failed ({%s}): sequence number and address of the response come from an unparsed frame object'
+                                  % (rs[0].name, '; '.join(fmt(c) for c in p.cond_terms() if sym.contains(c, r))))
+                if rs[0].args[1] != ph[0].args[0] or rs[0].args[2] != ('v', 'code') or rs[0].args[-1] != C(MSEM_8BIT):
+                    bad = bad or 'response built with (%s)' % ', '.join(fmt(a) for a in rs[0].args)
+                is_rx = any(c == ('cmp', '==', ('v', 'code'), C(E['RP_RESP_ERXOVERFLOW'])) for c in p.cond_terms())
+                if is_rx != (rs[0].name == 'send_resp_32'):
+                    bad = bad or 'payload class of the early response does not follow the code'
+                if rs[0].name == 'send_resp_32' and not (strip_cast(rs[0].args[3])[0] == 'call' and strip_cast(rs[0].args[3])[1] == 'trxbufsize'):
+                    bad = bad or 'ERXOVERFLOW payload is %s, expected trxbufsize(p)' % fmt(rs[0].args[3])
+            elif mt:
+                kinds.add('meta')
+                want = None
+                for c in p.cond_terms():
+                    if c[0] == 'cmp' and c[1] == '==' and strip_cast(c[2]) == r and sym.is_c(c[3]):
+                        want = {-74: E['RP_META_EHEADERENC'], -84: E['RP_META_EHEADERCRC']}.get(c[3][1])
+                if want is None or mt[0].args[1] != C(want):
+                    bad = bad or 'META code %s sent under {%s}' % (fmt(mt[0].args[1]), '; '.join(fmt(c) for c in p.cond_terms() if sym.contains(c, r)))
+            elif strip_cast(p.ret) != r:
+                bad = bad or 'a path sends nothing and does not return the parse result'
+        if kinds != {'send_resp_0', 'send_resp_32', 'meta'}:
+            bad = bad or 'reply kinds found: %s' % sorted(kinds)
+        ck.verdict(bad is None, 'C08.h', 'send_early_response', R.where('send_early_response'),
+                   'responses echo the parsed header only after parse_header succeeded; ERXOVERFLOW carries trxbufsize; header faults get the matching META frame' if bad is None else bad)
     # req2resp
     ps = R.paths('req2resp', 'C08.h', R.engine(set()))
     if ps is not None:
